@@ -91,14 +91,18 @@ CLAIMS = {
              "equal to the X-25 CRC over the right spans (composition of the C12, C13 and C20 theorems); (2) whatever a "
              "parser accepts is enclosed by flags, has exactly the announced length and a frame check sequence that is "
              "correct for the RECEIVED bytes; (3) every truncation or extension (length differing from the carried "
-             "length field) is refused. Partial: parse-after-build and the statement that <=3-bit / <=16-bit-burst "
-             "corruption never alters content are not yet theorems; they are decided on the implementation by fault "
-             "enumeration on every run (every single-bit flip and truncation of every generated frame <= 80 bytes, "
-             "sampled 2-/3-bit flips and bursts), and the model is compared with the implementation on all of these inputs.",
-        note="Partial proof (layout + acceptance soundness + resize refusal proved; round-trip and corruption checked by "
-             "fault enumeration against implementation and model). Model follows fix commits 13a5e7c (check sequences "
-             "over received bytes) and f440141 (segmentation bit kept). Known finding F09b: P/F attribute of SNRM/UA/DISC/RR is not on the wire.",
-        technique="Coq proof (layout, acceptance soundness) + correspondence + exhaustive single-fault enumeration",
+             "length field) is refused; (4) corruption: the CRC register is linear over GF(2) and every error burst of at "
+             "most 16 bits (a 2^16 x 8 sweep in the kernel, lifted to messages of ANY length) has a non-zero syndrome, hence a "
+             "valid frame of any length hit by ANY single burst of <= 16 bits between its flags - every single-bit error "
+             "included - no longer carries a correct frame check sequence and is refused by every parser. Not theorems: "
+             "parse-after-build for all frames, and the 2- and 3-bit patterns that are not one burst; they are decided on "
+             "the implementation by fault enumeration on every run (every single-bit flip and truncation of every generated "
+             "frame <= 80 bytes, sampled 2-/3-bit flips and bursts), with the model compared on all of these inputs.",
+        note="Partial proof (layout, acceptance soundness, resize refusal and burst-error refusal proved; round-trip and "
+             "multi-bit non-burst corruption checked by fault enumeration against implementation and model). Model follows fix "
+             "commits 13a5e7c (check sequences over received bytes) and f440141 (segmentation bit kept). Known finding F09b: "
+             "P/F attribute of SNRM/UA/DISC/RR is not on the wire.",
+        technique="Coq proof (layout, acceptance soundness, CRC linearity and burst detection) + correspondence + exhaustive single-fault enumeration",
         design="4/C09"),
     "C03": dict(
         text="Coq theorems (axiom-free) over the generated transition table and the modelled control flow of send / "
@@ -223,13 +227,15 @@ CLAIMS = {
              "returns the original plaintext for every length, key, title, counter < 2^32 and suite (GCTR involution by "
              "induction); no data is ever returned unless the received tag equals the GCM tag of the received ciphertext; "
              "any change confined to the tag is refused with the decryption error; keys not matching the suite, titles that "
-             "are not 8 bytes and texts shorter than a tag are refused. The executable model (Gallina AES-128/256 with "
+             "are not 8 bytes and texts shorter than a tag are refused; a wrapped key unwraps to the key that was wrapped (RFC 3394: "
+             "induction over the six passes and the blocks, for any block functions with D(E x) = x). The executable model (Gallina AES-128/256 with "
              "FIPS-197, NIST-GCM, Green-Book and RFC 3394 vectors checked in the kernel) is compared byte for byte with the "
              "library's OpenSSL-backed functions on every run, including an exhaustive single-bit-flip/truncation fault "
              "enumeration of protected texts and of every parameter.",
         note="Not a theorem (cannot be one): that altering ciphertext, AAD, nonce or key changes the 96-bit tag - GCM's "
              "unforgeability; the fault enumeration is test evidence. AES itself is validated by vectors and by comparison "
-             "with OpenSSL, not proved invertible; the key-wrap inverse theorem assumes D(E(b)) = b.",
+             "with OpenSSL, not proved invertible; the key-wrap inverse theorem (proved: unwrap(wrap k) = k for any whole number "
+             ">= 2 of 8-byte blocks) assumes D(E(b)) = b on 16-byte blocks.",
         technique="Coq proof over an abstract block cipher + byte-exact correspondence with OpenSSL + fault enumeration",
         design="4/C05"),
     "C19": dict(
